@@ -38,6 +38,7 @@ SEEDS = {
  "S33-columns-merge-index-oob": ("C10 (round 3)", "ColumnsRegion::merge_regions indexes `r.inner[col]` for every non-empty source", "merging sources with different non-zero column counts whose column type consumes its sources (OwnedRegion, StringRegion): index out of bounds"),
  "S34-collapse-take-last-index": ("C11 (round 3)", "CollapseSequence::push tests `self.last_index.take()`", "runs of three or more equal items: every other equal push is stored again"),
  "S35-flatstack-clear-plus-is-empty": ("C08 (round 3; two cooperating edits)", "FlatStack::clear returns early when indices.is_empty(); IndexOptimized::is_empty looks at the stride only", "FlatStack<MirrorRegion<usize>, IndexOptimized> whose history starts with a non-zero value: clear is a no-op"),
+ "S36-string-region-byte-push": ("C04 (self-made, for the program-text quantifier: 'any future one')", "a new `impl Push<&[u8]> for StringRegion` that forwards the bytes unchecked", "any byte string that is not UTF-8; no existing test calls the new impl"),
  "S37-decoder-tail-branch-le8": ("C06 (round 4, bit-level kernels)", "Decoder::next enters its end-of-data tail branch for `pending_bits <= 8` instead of `< 8`", "a symbol whose code is deeper than one byte starting exactly on a byte boundary of the encoded storage: panic 'decode incomplete (Further)'"),
  "S38-decoder-end-check-before-refill": ("C06 (round 4, bit-level kernels)", "the decoder's end-of-item check (no pending bits at the root => None) runs before the refill instead of after it", "an exactly-8-bit code (or 16 bits via a nested table) filling a byte-aligned byte with more symbols following: the item is silently cut short"),
  "S39-bytesmap-get-last-slot": ("C07 (round 4, per-item path)", "BytesMap::get bounds check `index + 1 < self.len()`: the last decode slot always reads as unassigned", "a string equal to the highest-tag dictionary entry is stored as its one-byte code and reads back as the raw tag byte"),
@@ -62,9 +63,9 @@ for name, (prop, change, needs) in SEEDS.items():
     res = results.get(name, [])
     meta = dict(
         breaks_property=prop, change=change, needs_to_manifest=needs,
-        origin="written by an independent sub-agent that was given only the property text and a scratch worktree of /repo",
-        confirmed=dict(how="tools/verify_seed.sh in a fresh scratch worktree of /repo HEAD: patch applies; crate compiles; existing suite (64 tests + 11 doctests) passes with the patch; demo.rs fails with the patch and passes without it", result="confirmed"),
-        checks_run=[dict(cmd="tools/seedtest.sh %s %s  (git -C /repo apply patch.diff; ./check %s --tier quick; git -C /repo checkout -- .)" % (name, r["check"], r["check"]), exit=r["exit"], violation_lines=r["violation_lines"], first_violations=r["first"]) for r in res],
+        origin=("written by hand while building the C04 program-text scan (no sub-agent)" if name.startswith("S36") else "written by an independent sub-agent that was given only the property text and a scratch worktree of /repo"),
+        confirmed=(dict(how="patch applies to /repo HEAD; crate compiles; the existing suite passes (nothing calls the new impl); the generated harness's replay is the demonstration", result="confirmed") if name.startswith("S36") else dict(how="tools/verify_seed.sh in a fresh scratch worktree of /repo HEAD: patch applies; crate compiles; existing suite (64 tests + 11 doctests) passes with the patch; demo.rs fails with the patch and passes without it", result="confirmed")),
+        checks_run=[dict(cmd=("tools/seedtest_alt.sh %s %s  (patch applied to a scratch worktree of /repo HEAD; VERIF_ALT_REPO=<worktree> ./check %s --tier quick)" if name[:3] >= "S36" else "tools/seedtest.sh %s %s  (git -C /repo apply patch.diff; ./check %s --tier quick; git -C /repo checkout -- .)") % (name, r["check"], r["check"]), exit=r["exit"], violation_lines=r["violation_lines"], first_violations=r["first"]) for r in res],
         detected_by=[r["check"] for r in res if r["exit"] == 1],
     )
     json.dump(meta, open(os.path.join(d, "meta.json"), "w"), indent=1)
